@@ -103,28 +103,37 @@ def build_roundtrips(ck):
 
         def sc(S):
             S.oracle = {'name': 'landscape_roundtrip', 'cls': base_name}
+            # dtype: an arbitrary dtype (opaque token, possibly a 64-bit one) or the constructor's default (numpy.float64);
+            # the 64-bit mode is a symbolic Bool: the round trip must hold in both modes
+            S.inputs['x64'] = STT.X64
+            default_dtype = S.choose(2) == 1
+            S.inputs['dtype_default'] = int(default_dtype)
             dtype = z3.Const('dtype', CX.AnyS)
+            if not default_dtype:
+                S.inputs['dtype_is_64bit'] = STT.is64(dtype)
+            dt = [] if default_dtype else [dtype]
+            dk = {} if default_dtype else {'dtype': dtype}
             stokes = ['IQU', 'QU', 'I', 'IQUV'][S.choose(4)]
             S.inputs['stokes'] = stokes
             if base_name == 'Landscape':
                 shape = S.seq('shape')
-                made = S.call(ClassRef(ci), [shape, dtype])
+                made = S.call(ClassRef(ci), [shape] + dt)
             elif base_name == 'StokesLandscape':
                 shape = S.seq('shape')
                 if S.choose(2) == 0:
-                    made = S.call(ClassRef(ci), [shape, stokes, dtype])
+                    made = S.call(ClassRef(ci), [shape, stokes] + dt)
                 else:
                     S.inputs['by_pixel_shape'] = 1
-                    made = S.call(ClassRef(ci), [], {'pixel_shape': shape, 'stokes': stokes, 'dtype': dtype})
+                    made = S.call(ClassRef(ci), [], dict({'pixel_shape': shape, 'stokes': stokes}, **dk))
             elif base_name == 'HealpixLandscape':
                 nside = S.int('nside')
                 S.assume(nside >= 1)
-                made = S.call(ClassRef(ci), [nside, stokes, dtype])
+                made = S.call(ClassRef(ci), [nside, stokes] + dt)
             else:
                 nside = S.int('nside')
                 S.assume(nside >= 1)
                 freqs = STT.TArr('param', shape=STT.fresh_shape(1), what='frequencies')
-                made = S.call(ClassRef(ci), [nside, freqs, stokes, dtype])
+                made = S.call(ClassRef(ci), [nside, freqs, stokes] + dt)
             S.oblige('exc', made.normal, tag='constructed')
             if not made.normal:
                 return
